@@ -664,6 +664,18 @@ func handleQueryCustom(app *BaseApp, path []string, req abci.RequestQuery) (res 
 		// a query context reads the state of req.Height: it must neither be served from nor fill the keepers'
 		// node-local LRU caches, which hold the latest state and are read by block execution
 		SetPrevCtx(true)
+	if req.Height != ctx.BlockHeight() && ctx.BlockStore() != nil {
+		// the state of a past height goes with the header of that height: a context that pairs the latest header
+		// with past state lets keepers file what they read under the latest height (the validators-by-chain cache
+		// is keyed by ctx.BlockHeight()), where block execution picks it up
+		prevCtx, err := ctx.PrevCtx(req.Height)
+		if err != nil {
+			return sdk.ErrInternal(
+				fmt.Sprintf("failed to load the context of height %d; %s (latest height: %d)", req.Height, err, app.LastBlockHeight()),
+			).QueryResult()
+		}
+		ctx = prevCtx
+	}
 
 	// Passes the rest of the path as an argument to the querier.
 	//
